@@ -271,7 +271,12 @@ def r_serializer_sibling(ctx, repo):
     ta, tb = norm(S.methods['anchor_node'].node), norm(C.methods['_anchor_node'].node)
     checks.append(('first-visit anchor numbering', 'self.anchors[node] is None' in ta and 'self.anchors[node] is None' in tb
                    and 'self.anchors[node] = None' in ta and 'self.anchors[node] = None' in tb))
-    checks.append(('anchor template id%03d', A.const_value(S.attrs['ANCHOR_TEMPLATE'][-1]) == 'id%03d' and "'id%03d'" in tb))
+    from . import match as M
+    tp = {e['__t'].value for n, e in M.find(S.methods['generate_anchor'].node, '__t % self.last_anchor_id')
+          if isinstance(e['__t'], ast.Constant)} if 'generate_anchor' in S.methods else set()
+    tcs = {e['__t'].value for n, e in M.find(C.methods['_anchor_node'].node, '__t % self.last_alias_id')
+           if isinstance(e['__t'], ast.Constant)}
+    checks.append(('anchor template %s' % sorted(tp), bool(tp) and tp == tcs))
     ta, tb = norm(S.methods['serialize_node'].node), norm(C.methods['_serialize_node'].node)
     checks.append(('descend_resolver(parent, index) / ascend', 'self.descend_resolver(parent, index)' in ta and
                    'self.descend_resolver(parent, index)' in tb and 'self.ascend_resolver()' in ta and 'self.ascend_resolver()' in tb))
